@@ -549,7 +549,7 @@ pub fn static_corpus() -> Vec<FnSpec> {
     // methods (receiver is part of the key)
     for &fl in &[Flavour::Global, Flavour::Thread, Flavour::Async] {
         for &rc in &[Receiver::Ref, Receiver::RefMut, Receiver::Value] {
-            for args in [vec![], vec![TyD::U32], vec![TyD::String, TyD::U8]] {
+            for args in [vec![], vec![TyD::U32], vec![TyD::String, TyD::U8], vec![TyD::U32, TyD::U16]] {
                 let i = id();
                 let mut s = FnSpec::new(i, &format!("meth_{}_{:04}", fl_tag(fl), i), "meth", fl);
                 s.receiver = rc;
